@@ -579,6 +579,11 @@ func (v *VC) emitFrame(key, nm, old string, known []string, extOnly bool, entryC
 		c = "(and " + strings.Join(conds, " ") + ")"
 	}
 	v.emit("(assert (forall ((p Ptr)) (! (=> %s (= (select %s p) (select %s p))) :pattern ((select %s p)))))", c, nm, old, nm)
+	if newClock != "" {
+		if ax := v.mapValClockAxiom(nm, key, newClock); ax != "" {
+			v.emit("%s", ax)
+		}
+	}
 	if !strings.HasPrefix(srt, "RAW:") && isPtrLike(srt) {
 		sel := ptrOf(srt, fmt.Sprintf("(select %s p)", nm))
 		// values in cells visible to callees never point to private allocations
@@ -588,6 +593,31 @@ func (v *VC) emitFrame(key, nm, old string, known []string, extOnly bool, entryC
 			v.emit("(assert (forall ((p Ptr)) (! (<= (root %s) %s) :pattern ((select %s p)))))", sel, newClock, nm)
 		}
 	}
+}
+
+// mapValClockAxiom: no value stored in a map of pointer-like values refers to an object that is not
+// allocated yet at clock clk ("" when the heap is not such a map-value heap).
+func (v *VC) mapValClockAxiom(nm, key, clk string) string {
+	if !strings.HasPrefix(key, "mapval:") {
+		return ""
+	}
+	srt := v.heapKeys[key] // RAW:(Array Ptr (Array K V))
+	const pre = "RAW:(Array Ptr (Array "
+	if !strings.HasPrefix(srt, pre) || !strings.HasSuffix(srt, "))") {
+		return ""
+	}
+	inner := srt[len(pre) : len(srt)-2] // "K V"
+	var ks, vs string
+	for _, cand := range []string{"Ptr", "Slice", "Iface"} {
+		if strings.HasSuffix(inner, " "+cand) {
+			ks, vs = strings.TrimSuffix(inner, " "+cand), cand
+		}
+	}
+	if vs == "" {
+		return ""
+	}
+	sel := fmt.Sprintf("(select (select %s m) k)", nm)
+	return fmt.Sprintf("(assert (forall ((m Ptr) (k %s)) (! (<= (root %s) %s) :pattern (%s))))", ks, ptrOf(vs, sel), clk, sel)
 }
 
 var intKeyRange = map[string][2]string{
